@@ -139,6 +139,27 @@ def _tuple_arity(ann: Optional[ast.AST]) -> int:
     return 0
 
 
+def _elem_ann_arity(ann: Optional[ast.AST]) -> int:
+    """``list[tuple[A, B]]`` / ``Sequence[Tuple[A, B]]`` / ``Iterator[tuple[..]]`` -> 2."""
+    if ann is None:
+        return 0
+    if isinstance(ann, ast.Constant) and isinstance(ann.value, str):
+        try:
+            ann = ast.parse(ann.value, mode="eval").body
+        except SyntaxError:
+            return 0
+    if isinstance(ann, ast.Subscript) and norm(ann.value).split(".")[-1] in (
+        "list", "List", "Sequence", "Iterable", "Iterator", "Generator", "set", "Set", "frozenset", "deque",
+    ):
+        sl = ann.slice
+        if isinstance(sl, ast.Tuple):  # Generator[Y, S, R]
+            if norm(ann.value).split(".")[-1] != "Generator" or not sl.elts:
+                return 0
+            sl = sl.elts[0]
+        return _tuple_arity(sl)
+    return 0
+
+
 class Ctx:
     """Per-run caches."""
 
@@ -157,8 +178,9 @@ class Ctx:
             self._by_name = idx
         return self._by_name.get(name, [])
 
-    def ret_arity(self, call: ast.Call, m, f) -> int:
-        """Fixed tuple arity of the value a call returns, from return annotations."""
+    def ret_arity(self, call: ast.Call, m, f, of=_tuple_arity) -> int:
+        """Fixed tuple arity of the value a call returns (``of=_elem_ann_arity``: of the
+        elements of the collection it returns), from return annotations."""
         fn = call.func
         cands: List[ast.AST] = []
         if isinstance(fn, ast.Name):
@@ -177,7 +199,7 @@ class Ctx:
                 cands = self.defs_named(fn.attr)
         if not cands:
             return 0
-        return min(_tuple_arity(c.returns) for c in cands)
+        return min(of(c.returns) for c in cands)
 
     def rule_subclasses(self, c: ast.ClassDef) -> list:
         """Classes of rules/ whose source MRO contains ``c``."""
@@ -221,10 +243,59 @@ def _affects(changed: str, text: str) -> bool:
 # ---------------------------------------------------------------------------
 
 
+def _comprehension_iter(name: ast.Name) -> Optional[ast.AST]:
+    """The iterable a comprehension variable ranges over (``for x in ITER`` of an enclosing comprehension)."""
+    p = getattr(name, "_parent", None)
+    while p is not None and not isinstance(p, FuncNode + (ast.Lambda, ast.ClassDef, ast.Module)):
+        if isinstance(p, (ast.ListComp, ast.SetComp, ast.GeneratorExp, ast.DictComp)):
+            for g in p.generators:
+                if isinstance(g.target, ast.Name) and g.target.id == name.id:
+                    return g.iter
+        p = getattr(p, "_parent", None)
+    return None
+
+
+def _elem_arity(cx: Ctx, e: ast.AST, cfg, at, f, m, depth: int = 0) -> int:
+    """Fixed tuple arity of the *elements* of collection ``e`` (annotations only)."""
+    if depth > 3:
+        return 0
+    if isinstance(e, ast.Call):
+        if isinstance(e.func, ast.Name) and e.func.id in ("list", "tuple", "sorted", "reversed") and e.args:
+            return _elem_arity(cx, e.args[0], cfg, at, f, m, depth + 1)
+        return cx.ret_arity(e, m, f, of=_elem_ann_arity)
+    if isinstance(e, ast.Name) and cfg is not None:
+        best = None
+        os_ = origins(cfg, e, at)
+        if not os_:
+            return 0
+        for o in os_:
+            if o.kind == "param" and not o.path:
+                v = _elem_ann_arity(getattr(o.expr, "annotation", None))
+            elif o.kind == "expr" and not o.path:
+                if isinstance(o.stmt, ast.AnnAssign) and isinstance(o.stmt.target, ast.Name) and o.stmt.target.id == e.id:
+                    v = _elem_ann_arity(o.stmt.annotation)
+                else:
+                    v = _elem_arity(cx, o.expr, cfg, o.stmt, f, m, depth + 1)
+            elif o.kind == "aug":
+                continue  # x += [...] keeps the declared element type
+            else:
+                v = 0
+            best = v if best is None else min(best, v)
+        return best or 0
+    return 0
+
+
 def _min_len(cx: Ctx, e: ast.AST, cfg, at, f, m, depth: int = 0) -> int:
     """Lower bound of ``len(e)`` that follows from how the value is built."""
     if depth > 5:
         return 0
+    if isinstance(e, ast.Subscript) and _const_index(e) is not None:
+        # an element of a collection annotated list[tuple[A, B]]
+        return _elem_arity(cx, e.value, cfg, at, f, m)
+    if isinstance(e, ast.Name):
+        it = _comprehension_iter(e)
+        if it is not None:
+            return _elem_arity(cx, it, cfg, at, f, m)
     if isinstance(e, (ast.List, ast.Tuple)):
         n = 0
         for x in e.elts:
@@ -280,6 +351,8 @@ def _min_len(cx: Ctx, e: ast.AST, cfg, at, f, m, depth: int = 0) -> int:
                 v = 0 if o.path else _tuple_arity(getattr(o.expr, "annotation", None))
             elif o.kind == "expr" and not o.path:
                 v = _min_len(cx, o.expr, cfg, o.stmt, f, m, depth + 1)
+            elif o.kind == "for" and not o.path:
+                v = _elem_arity(cx, o.expr, cfg, o.stmt, f, m)  # for t in <list[tuple[A, B]]>
             else:
                 v = 0
             best = v if best is None else min(best, v)
